@@ -27,6 +27,8 @@ type Case struct {
 	Repeated bool   `json:"repeated_fields"`
 	Service  string `json:"service"`
 	UriForm  string `json:"x_forwarded_uri_form,omitempty"` // "" (origin form) | authority | absolute
+	// FwdMethod: value of X-Forwarded-Method when not the default DELETE (extension methods, other casing)
+	FwdMethod string `json:"x_forwarded_method_value,omitempty"`
 }
 
 var trustedMenu = map[string]*[]string{
@@ -58,7 +60,7 @@ var fwdHeaders = []struct{ name, value, alt string }{
 	{"X-Forwarded-Method", "DELETE", "PATCH"},
 }
 
-var spoofed = []string{"uri-host.example", "9.9.9.9", "9.9.9.8", "8.8.8.8", "8.8.4.4", "evil.example", "other.example", "/admin", "/other", "DELETE", "PATCH", "ftp"}
+var spoofed = []string{"uri-host.example", "9.9.9.9", "9.9.9.8", "8.8.8.8", "8.8.4.4", "evil.example", "other.example", "/admin", "/other", "DELETE", "PATCH", "ftp", "PROPFIND", "QUERY", "PURGE"}
 
 func spell(name, how string) string {
 	switch how {
@@ -306,6 +308,10 @@ func (cs *Case) request(withHeaders bool) *hx.Req {
 				}
 			}
 
+			if h.name == "X-Forwarded-Method" && cs.FwdMethod != "" {
+				value = cs.FwdMethod
+			}
+
 			r.Header = append(r.Header, [2]string{spell(h.name, cs.Spelling), value})
 			if cs.Repeated {
 				r.Header = append(r.Header, [2]string{spell(h.name, cs.Spelling), h.alt})
@@ -442,6 +448,9 @@ func judge(c *engine.Ctx, f *fixtures, cs *Case) {
 
 	if has(cs, 6) {
 		method = "DELETE"
+		if cs.FwdMethod != "" {
+			method = cs.FwdMethod
+		}
 	}
 
 	if has(cs, 2) {
@@ -555,7 +564,7 @@ func cases(quick bool) []Case {
 				for _, sp := range spellings {
 					for _, rep := range reps {
 						for _, svc := range []string{"decision", "proxy"} {
-							out = append(out, Case{t, p, s, sp, rep, svc, ""})
+							out = append(out, Case{t, p, s, sp, rep, svc, "", ""})
 						}
 					}
 				}
@@ -572,7 +581,7 @@ func cases(quick bool) []Case {
 				}
 
 				for _, svc := range []string{"decision", "proxy"} {
-					out = append(out, Case{t, p, s, "canonical", false, svc, ""})
+					out = append(out, Case{t, p, s, "canonical", false, svc, "", ""})
 				}
 			}
 		}
@@ -593,12 +602,27 @@ func cases(quick bool) []Case {
 		}
 	}
 
+	// X-Forwarded-Method naming an extension method: a trusted peer's value is the method, an untrusted peer's is ignored
+	for _, m := range []string{"PROPFIND", "QUERY", "PURGE"} {
+		for _, peer := range []string{"10.0.0.1:4711", "10.9.9.9:4711"} {
+			for s := 0; s < 1<<len(fwdHeaders); s++ {
+				if s&(1<<6) == 0 {
+					continue
+				}
+
+				for _, svc := range []string{"decision", "proxy"} {
+					out = append(out, Case{Trusted: "10.0.0.1", Peer: peer, Subset: s, Spelling: "canonical", Service: svc, FwdMethod: m})
+				}
+			}
+		}
+	}
+
 	if quick {
 		// a slice of the spelling / repetition dimensions
 		for _, sp := range []string{"lower", "mixed"} {
 			for s := 0; s < 1<<len(fwdHeaders); s += 5 {
 				for _, svc := range []string{"decision", "proxy"} {
-					out = append(out, Case{"10.0.0.1", "10.9.9.9:4711", s, sp, true, svc, ""}, Case{"10.0.0.1", "10.0.0.1:4711", s, sp, true, svc, ""})
+					out = append(out, Case{"10.0.0.1", "10.9.9.9:4711", s, sp, true, svc, "", ""}, Case{"10.0.0.1", "10.0.0.1:4711", s, sp, true, svc, "", ""})
 				}
 			}
 		}
@@ -616,7 +640,7 @@ func Check() *engine.Check {
 			"(each with a value that would select a different rule) x [thorough: 4 header-name spellings x single/repeated fields] through the real " +
 			"decision and proxy handler chains (first middleware = real trustedproxy) with rules keyed on scheme/host/method/path and a finalizer " +
 			"echoing method, URL and client address list; untrusted peer: differential against the same request without the headers, and no spoofed " +
-			"value may reach the upstream; trusted peer: per-component override table; the configurations are produced by the real loader from YAML " +
+			"value may reach the upstream; trusted peer: per-component override table (X-Forwarded-Method also with the extension methods PROPFIND, QUERY, PURGE); the configurations are produced by the real loader from YAML " +
 			"files, 5 of them with different lists for the two services (each service judged against its own list). Non-trivial = at least one forwarded header present or trusted peer.",
 		Assumptions: []string{
 			"trusted means: the peer's address parses and equals a parsable listed address or lies in a parsable listed CIDR range",
